@@ -92,6 +92,14 @@ def gen_cases(ctx):
         pool = ["inf", "-inf", "inf", "-inf", 1.0, "nan", -1.5, 9007199254740992.0, -9007199254740992.0]
         spec = {"n": ln, "cols": [{"name": nm, "kind": "float", "vals": [rng.choice(pool) for _ in range(ln)]} for nm in ("a", "b", "c")[:rng.choice([2, 3])]]}
         cases.append({"op": "drop_na", "cols": [c["name"] for c in spec["cols"]], "frame": spec})
+    # object / integer / boolean columns on frames WITH A HISTORY (harness/warm.py: used through the non-modifying methods
+    # while they held other contents): what `is_na` answered for the earlier contents must not survive into drop_na / unique
+    for kind, vals in (("objint", [None, 1, None, 2, 3]), ("objint", [1, None, 2, None, None]), ("objstr", ["a", None, "b", None, "a"]),
+                       ("objstr", [None, "a", "b", "b", None]), ("int", [3, 1, 2, 1, 3]), ("bool", [True, False, True, True, False])):
+        spec = {"n": 5, "cols": [{"name": "a", "kind": kind, "vals": vals}, {"name": "b", "kind": "int", "vals": [1, 2, 3, 4, 5]}]}
+        for op in ("drop_na", "unique"):
+            cases.append({"op": op, "cols": ["a"], "frame": spec, "warm": True})
+            cases.append({"op": op, "cols": ["a", "b"], "frame": spec, "warm": True})
     n = 900 if ctx.tier == "quick" else 25000
     for _ in range(n):
         cases.append(gen_case(rng, ctx.tier))
